@@ -47,7 +47,11 @@ def gen_recent_case(rng: random.Random, tier: str, backends=('dict',)) -> dict:
                            'mailbox': 'Other', 'literal': 'litplus',
                            'msgs': _msgs(rng, tokens, rng.randint(1, 3))}],
               'sched_seed': None},
-             {'actions': [{'sess': deliverer, 'kind': 'select',
+             # half of the deliverers only EXAMINE their source, whose
+             # messages then keep the stored recent marker while they are
+             # copied into INBOX
+             {'actions': [{'sess': deliverer,
+                           'kind': rng.choice(['select', 'examine']),
                            'mailbox': 'Other'}], 'sched_seed': None}]
     state = {i: 'none' for i in range(n)}   # none | rw | ro | gone
     todo: dict[int, list] = {i: [] for i in range(n)}
